@@ -38,9 +38,9 @@ LOST = {'v': 'lost', 'kids': ()}
 BLOBREC = {'v': 'blobrec', 'kids': ()}
 DEVIATIONS = ('AliasCreating', 'SpBlobByName', 'InvalidateDoomed', 'LeakUnstored')
 COMMIT_END = ('Finish', 'FinishThenFail', 'FailBegun', 'StoreRaises', 'StoreConflict', 'CommitSpConflict', 'CommitSpRaises',
-              'FailStored', 'FailVoted')
+              'CommitSpStoreRaises', 'FailStored', 'FailVoted')
 FAILURES = ('FailBeforeBegin', 'FailBegun', 'StoreRaises', 'StoreConflict', 'CommitSpConflict', 'CommitSpRaises', 'FailStored',
-            'FailVoted', 'FinishThenFail', 'SavepointRaises')
+            'FailVoted', 'FinishThenFail', 'SavepointRaises', 'CommitSpStoreRaises')
 # which deviation of the code makes a clause of `mon` possible (the design, all four cleared, satisfies every clause)
 CLAUSE_DEVIATION = {'state-lost': 'InvalidateDoomed', 'owned-uncommitted': 'LeakUnstored',
                     'rollback-owner': 'AliasCreating', 'rollback-value': 'SpBlobByName'}
@@ -802,7 +802,7 @@ class ConnReplayer:
                 self.snaps.append((tag, self.project()))
             return cb
         rma.hooks = {'tpc_begin': snap('Begin'), 'commit': snap('Stored'), 'tpc_vote': snap('Vote')}
-        stepwise = not any(n in names for n in ('CommitSp', 'CommitSpConflict', 'CommitSpRaises'))
+        stepwise = not any(n in names for n in ('CommitSp', 'CommitSpConflict', 'CommitSpRaises', 'CommitSpStoreRaises'))
         poisoned = None
         if end == 'FailBegun':
             if alt:
@@ -826,6 +826,19 @@ class ConnReplayer:
             self.shape[poisoned].poison(self.objs[poisoned])
         if stepwise:
             self.c1._readCurrent.tap = snap('Store')
+        inst = self.c1._normal_storage
+        if end == 'CommitSpStoreRaises':
+            # the real storage's store() fails for the record of one object: the k-th store of the copy loop
+            bad = self.objs[str(steps[-1]['args'][0])]._p_oid
+            real_store = inst.store
+            if bad is None:
+                raise Mismatch('commit.setup', 'object of the savepoint store has an oid', 'no oid')
+
+            def failing_store(oid, *a, **kw):
+                if oid == bad:
+                    raise Injected('storage error at the record of %s' % oid_repr(oid))
+                return real_store(oid, *a, **kw)
+            inst.store = failing_store
         dead = self._drop_savepoints()
         try:
             if end == 'Finish':
@@ -852,6 +865,7 @@ class ConnReplayer:
             raise Mismatch('commit.outcome', end, '%s: %s' % (type(e).__name__, e))
         finally:
             self.c1._readCurrent.tap = None
+            inst.__dict__.pop('store', None)
             if poisoned is not None:
                 self.shape[poisoned].unpoison(self.objs[poisoned])
         self._check_dead(dead)
